@@ -450,6 +450,71 @@ func init() {
 	}
 	I["(*sync.RWMutex).Lock"] = I["(*sync.Mutex).Lock"]
 	I["(*sync.RWMutex).Unlock"] = I["(*sync.Mutex).Unlock"]
+	// ---- sync.Map: an atomic association list per object (its HashTrieMap internals are not interpreted);
+	// every operation is one atomic step, like the atomics. Range/CompareAndSwap are not modelled.
+	smOf := func(ex *Exec, fn *ssa.Function, a []Value) *mapObj {
+		p, ok := a[0].(Ptr)
+		if !ok || p.slot == nil {
+			panic(unsupported("sync.Map through nil/symbolic pointer"))
+		}
+		m, ok := ex.syncMaps[p.slot]
+		if !ok {
+			var anyT types.Type = types.NewInterfaceType(nil, nil)
+			if fn.Signature.Params().Len() > 0 {
+				anyT = fn.Signature.Params().At(0).Type()
+			}
+			m = &mapObj{keyT: anyT, valT: anyT, id: ex.fresh()}
+			ex.syncMaps[p.slot] = m
+		}
+		return m
+	}
+	I["(*sync.Map).Load"] = func(ex *Exec, th *Thread, fn *ssa.Function, a []Value) (Value, bool) {
+		m := smOf(ex, fn, a)
+		if i := ex.findEntry(m, a[1], "syncmap-load"); i >= 0 {
+			return tupleV{copyVal(m.entries[i].val), ex.tc.tt}, false
+		}
+		return tupleV{ex.zero(m.valT), ex.tc.ff}, false
+	}
+	I["(*sync.Map).Store"] = func(ex *Exec, th *Thread, fn *ssa.Function, a []Value) (Value, bool) {
+		m := smOf(ex, fn, a)
+		ex.mapSet(th, m, a[1], a[2])
+		return nil, false
+	}
+	I["(*sync.Map).LoadOrStore"] = func(ex *Exec, th *Thread, fn *ssa.Function, a []Value) (Value, bool) {
+		m := smOf(ex, fn, a)
+		if i := ex.findEntry(m, a[1], "syncmap-loadorstore"); i >= 0 {
+			return tupleV{copyVal(m.entries[i].val), ex.tc.tt}, false
+		}
+		m.entries = append(m.entries, &mapEntry{key: copyVal(a[1]), val: copyVal(a[2]), present: ex.tc.tt})
+		return tupleV{copyVal(a[2]), ex.tc.ff}, false
+	}
+	I["(*sync.Map).LoadAndDelete"] = func(ex *Exec, th *Thread, fn *ssa.Function, a []Value) (Value, bool) {
+		m := smOf(ex, fn, a)
+		if i := ex.findEntry(m, a[1], "syncmap-loadanddelete"); i >= 0 {
+			v := m.entries[i].val
+			m.entries = append(m.entries[:i:i], m.entries[i+1:]...)
+			return tupleV{copyVal(v), ex.tc.tt}, false
+		}
+		return tupleV{ex.zero(m.valT), ex.tc.ff}, false
+	}
+	I["(*sync.Map).Delete"] = func(ex *Exec, th *Thread, fn *ssa.Function, a []Value) (Value, bool) {
+		ex.mapDelete(smOf(ex, fn, a), a[1])
+		return nil, false
+	}
+	I["(*sync.Map).Swap"] = func(ex *Exec, th *Thread, fn *ssa.Function, a []Value) (Value, bool) {
+		m := smOf(ex, fn, a)
+		if i := ex.findEntry(m, a[1], "syncmap-swap"); i >= 0 {
+			old := m.entries[i].val
+			m.entries[i].val = copyVal(a[2])
+			return tupleV{copyVal(old), ex.tc.tt}, false
+		}
+		m.entries = append(m.entries, &mapEntry{key: copyVal(a[1]), val: copyVal(a[2]), present: ex.tc.tt})
+		return tupleV{ex.zero(m.valT), ex.tc.ff}, false
+	}
+	I["(*sync.Map).Clear"] = func(ex *Exec, th *Thread, fn *ssa.Function, a []Value) (Value, bool) {
+		smOf(ex, fn, a).entries = nil
+		return nil, false
+	}
 	I["(*sync.RWMutex).TryLock"] = I["(*sync.Mutex).TryLock"]
 	I["(*sync.RWMutex).RLock"] = func(ex *Exec, th *Thread, fn *ssa.Function, a []Value) (Value, bool) {
 		if ex.maybePreempt(th, "rlock") {
